@@ -100,7 +100,7 @@ pub fn run(rep: &mut Report, which0: Which, block_dev: bool) {
     let lab = Lab::new(false);
     let n = if thorough { 3 } else { 2 };
     // truncated hash lengths are swept by the library legs; the CLI legs take both only where cheap
-    let hls: &[usize] = if block_dev || (which == Which::C02 && !thorough) { &[64] } else { &[64, 4] };
+    let hls: &[usize] = if block_dev { &[64] } else { &[64, 4] };
     let sh = shards(&lab, if thorough { 3 } else { 2 }, hls);
     if block_dev {
         std::env::set_var("BITA_VERIF_BLOCKDEV", "1");
